@@ -105,6 +105,39 @@ def _prog(simple, size, x1, x2, a2, s2, x3, a3, x4, a4, t, _twin):
         w.close(code)
 
 
+def tpl_slowcb(size, x1, a2, x3, a3, _twin=False):
+    """Slow (awaiting) callbacks: a task is cancelled and sits in its cancel callback while a flush() call that
+    waits for it is itself cancelled (e.g. a wait_for() around it timed out); then more work is requested."""
+    w = World("c01.slowcb")
+    code = 0
+    try:
+        pool = _mkpool(size, False, w)
+        it = Interp(w, pool, cbkind=3)
+        idle_check = _install(w, pool, size)
+        try:
+            act(it, select(SPAWN, x1), 0)
+            w.settle()
+            it.cancel(a2)
+            w.settle()
+            it.flush(True)
+            w.settle()
+            it.cancel_flush()
+            w.settle()
+            act(it, select(ALPHA, x3), a3)
+            w.settle()
+            it.apply(2)
+            w.settle(); idle_check()
+            w.drain(); idle_check()
+        except Excluded as e:
+            w.excluded = str(e)
+        code = w.err
+        if _twin and not code and not w.excluded and it.flush_cancelled and len(w.W) >= 3:
+            code = 77
+        return code
+    finally:
+        w.close(code)
+
+
 def tpl_prog(size, x1, x2, a2, s2, x3, a3, x4, a4, t, _twin=False):
     return _prog(False, size, x1, x2, a2, s2, x3, a3, x4, a4, t, _twin)
 
@@ -123,6 +156,11 @@ def families(tier):
         parts=parts_product(n1=range(4), n2=range(4)),
         twin_args=[2, 2, 2, 0, 0],
     )]
+    fams.append(Family(
+        name="slowcb", fn="tpl_slowcb", params=["size", "x1", "a2", "x3", "a3"],
+        pre=["size >= 0", "0 <= x1 < 4", "a2 >= -1", "0 <= x3 < %d" % na, "a3 >= -1"] + ([] if thorough else ["a2 <= 2", "a3 <= 2", "size <= 4"]),
+        parts=parts_product(x1=range(4), x3=range(na)),
+        twin_pre=["x1 == 0"], twin_args=[2, 0, 0, na - 1, 0]))
     if not thorough:
         # K = 2 after the spawn, step 2 at any boundary (t) or embedded in any user-code site (s2)
         fams.append(Family(
